@@ -24,6 +24,7 @@ type BlockRec struct {
 	End    BlockRes                 `json:"end"`
 	Stores map[string]string        `json:"stores"` // one digest per module store (+ bank)
 	Txs    []map[string]interface{} `json:"txs"`
+	Evs    map[string]interface{}   `json:"evs"`
 }
 
 func blockDigest(b Block) string {
@@ -33,6 +34,17 @@ func blockDigest(b Block) string {
 
 func txView16(r TxRes) map[string]interface{} {
 	return map[string]interface{}{"ok": r.OK, "code": r.Code, "data": r.Data, "gas": r.Gas}
+}
+
+// evView: the events side of a block: one digest per message, one for BeginBlock, one for EndBlock.
+func evView(begin, end BlockRes, txs []TxRes) map[string]interface{} {
+	tx := []string{}
+	n := begin.NEv + end.NEv
+	for _, t := range txs {
+		tx = append(tx, t.Ev)
+		n += t.NEv
+	}
+	return map[string]interface{}{"begin": begin.Ev, "end": end.Ev, "txs": tx, "n": n}
 }
 
 // RunReplica replays blocks [from, to) of w on c (c must be positioned at block `from`) and records them.
@@ -58,15 +70,20 @@ func (r *replica) step(w Workload) {
 		if rec.Begin.Panic {
 			rec.Height = r.c.Height + 1
 			r.dead = true
+			rec.Evs = evView(rec.Begin, BlockRes{}, nil)
 			r.recs = append(r.recs, rec)
 			return
 		}
 	}
 	rec.Height = r.c.Height
+	var txs []TxRes
 	for _, st := range blk.Steps {
-		rec.Txs = append(rec.Txs, txView16(r.c.Exec(st)))
+		t := r.c.Exec(st)
+		txs = append(txs, t)
+		rec.Txs = append(rec.Txs, txView16(t))
 	}
 	rec.End = r.c.EndCommit()
+	rec.Evs = evView(rec.Begin, rec.End, txs)
 	if rec.End.Panic {
 		r.dead = true
 	} else {
@@ -80,7 +97,7 @@ func logReplica(lg *sim.Log, root int, name string, recs []BlockRec) {
 	for _, rec := range recs {
 		parent = lg.Add(parent, "replica:"+name, "Block", map[string]interface{}{"r": name, "h": rec.H, "wl": rec.WL},
 			map[string]interface{}{"begin": rec.Begin.Panic, "end": rec.End.Panic},
-			map[string]interface{}{"height": rec.Height, "stores": rec.Stores, "txs": rec.Txs, "ntx": len(rec.Txs)})
+			map[string]interface{}{"height": rec.Height, "stores": rec.Stores, "txs": rec.Txs, "ntx": len(rec.Txs), "evs": rec.Evs})
 	}
 }
 
@@ -194,6 +211,7 @@ func replicasMain(args []string) int {
 		for _, t := range txs {
 			rec.Txs = append(rec.Txs, txView16(t))
 		}
+		rec.Evs = evView(begin, end, txs)
 		genRecs = append(genRecs, rec)
 	}
 	g.Base()
@@ -326,6 +344,9 @@ func replicasMain(args []string) int {
 	cover["auctionsV2"] = int(g.C.App.NewaucKeeper.GetAuctionID(fctx))
 	cover["bidsV2"] = int(g.C.App.NewaucKeeper.GetUserBidID(fctx))
 	cover["height"] = int(g.C.Height)
+	for k, v := range g.Cover {
+		cover[k] = v
+	}
 	_ = sim.WriteJSON(filepath.Join(*work, "workload_tags.json"), map[string]interface{}{"tags": tags, "cover": cover})
 	fmt.Printf("replicas: nodes=%d blocks=%d steps=%d inproc=%d procs=%d height=%d\n", len(lg.Nodes), len(g.W.Blocks), nsteps, 2*len(scheds), nproc, g.C.Height)
 	return 0
